@@ -1922,3 +1922,40 @@ pub fn c07_rustapi(base_seed: u64, i: u64, g: &GenCtx) -> Plan {
     p.cfg.guard_alloc = true;
     p
 }
+
+
+/// C11 / C12: one system call on the hashed file fails (strace fault injection on a child process)
+fn sysfault_plan(prop: &str, family: &str, seed: u64, b3sum: bool) -> Plan {
+    let mut r = Rng::new(seed);
+    let len = match r.below(6) {
+        0 => 16383 + r.usize_below(3),
+        1 => 65536 * (1 + r.usize_below(3)) + r.usize_below(2),
+        2 => r.usize_below(3000),
+        3 => 0,
+        _ => 16384 + r.usize_below(300_000),
+    };
+    let data = vec![DataSpec::Random { seed: r.next(), len }];
+    let target = if b3sum { 3 + r.below(2) as u8 } else { r.below(3) as u8 };
+    let maps = matches!(target, 0 | 1 | 3);
+    let reads = ((len + 65535) / 65536 + 1) as u32;
+    // mostly faults that the run will actually meet; a few that it will not (they must change nothing)
+    let (syscall, when) = if r.chance(1, 6) {
+        (r.below(3) as u8, 1 + r.below(7) as u32)
+    } else if maps && len >= 16384 && r.chance(2, 3) {
+        (r.below(2) as u8, 1)
+    } else if maps {
+        (1, 1)
+    } else {
+        (2, 1 + r.below(reads as u64) as u32)
+    };
+    let ops = vec![Op::SysFault { target, data: 0, syscall, errno: r.below(5) as u8, when }];
+    single(prop, family, seed, Cfg::default(), data, Level::Detect, ops)
+}
+
+pub fn c11_syscall(base_seed: u64, i: u64, _g: &GenCtx) -> Plan {
+    sysfault_plan("C11", "c11-syscall", mix(base_seed ^ 0x5CA1, i), false)
+}
+
+pub fn c12_syscall(base_seed: u64, i: u64, _g: &GenCtx) -> Plan {
+    sysfault_plan("C12", "c12-syscall", mix(base_seed ^ 0x5CA2, i), true)
+}
